@@ -308,7 +308,16 @@ impl IndexTable {
 				let cmp = _mm_movemask_epi8(_mm_cmpeq_epi32(current, target)) >> (skip * 4);
 				if cmp != 0 {
 					let position = i + skip as usize + (cmp.trailing_zeros() as usize) / 4;
-					return (Self::read_entry(chunk, position), position)
+					let entry = Self::read_entry(chunk, position);
+					// The page can be a live mapping that the enact stage writes to: only an entry
+					// that still carries the pattern is handed out (`pk` is not zero, so an emptied
+					// slot does not). Otherwise the search goes on behind it.
+					if (entry.as_u64() >> shift) as u32 == pk as u32 {
+						return (entry, position)
+					}
+					i = ((position + 1) >> 2) << 2;
+					skip = (position + 1 - i) as i32;
+					continue
 				}
 				i += 4;
 				skip = 0;
